@@ -152,6 +152,8 @@ package sflow
 //@   ensures cs.Records == old(cs.Records)
 //@   modifies cs, r.Pos
 
+// (the six record decoders are named by uninterpreted functions of the stream octets and the start position, like
+// the sample decoders: the loop shows that it stores exactly that value, the record decoder's own contract says what it is)
 // counter sample: 12-octet header, then RecordsNo records, each an 8-octet (type, length) header followed by the
 // record body; a record of a supported type is stored under its name with all fields equal to the wire values, a
 // record of any other type is skipped by its declared length and leaves the records decoded so far untouched
@@ -173,17 +175,17 @@ package sflow
 //@     invariant csHdrAt(cs, r.D, old(r.Pos))
 //@     decreases cs.RecordsNo - i
 //@     step [gen] be32(r.D, iter(r.Pos)) == 1 ==> r.Pos == iter(r.Pos) + 8 + 88 && has(cs.Records, "GenInt") && isboxed(cs.Records["GenInt"], *GenericInterfaceCounters)
-//@         && genAt(unbox(cs.Records["GenInt"], *GenericInterfaceCounters), r.D, iter(r.Pos) + 8) && othersKept(cs.Records, iter(cs.Records), "GenInt")
+//@         && unbox(cs.Records["GenInt"], *GenericInterfaceCounters) == genericU(r.D, iter(r.Pos) + 8) && othersKept(cs.Records, iter(cs.Records), "GenInt")
 //@     step [eth] be32(r.D, iter(r.Pos)) == 2 ==> r.Pos == iter(r.Pos) + 8 + 52 && has(cs.Records, "EthInt") && isboxed(cs.Records["EthInt"], *EthernetInterfaceCounters)
-//@         && ethAt(unbox(cs.Records["EthInt"], *EthernetInterfaceCounters), r.D, iter(r.Pos) + 8) && othersKept(cs.Records, iter(cs.Records), "EthInt")
+//@         && unbox(cs.Records["EthInt"], *EthernetInterfaceCounters) == ethernetU(r.D, iter(r.Pos) + 8) && othersKept(cs.Records, iter(cs.Records), "EthInt")
 //@     step [tr] be32(r.D, iter(r.Pos)) == 3 ==> r.Pos == iter(r.Pos) + 8 + 72 && has(cs.Records, "TRInt") && isboxed(cs.Records["TRInt"], *TokenRingCounters)
-//@         && trAt(unbox(cs.Records["TRInt"], *TokenRingCounters), r.D, iter(r.Pos) + 8) && othersKept(cs.Records, iter(cs.Records), "TRInt")
+//@         && unbox(cs.Records["TRInt"], *TokenRingCounters) == tokenRingU(r.D, iter(r.Pos) + 8) && othersKept(cs.Records, iter(cs.Records), "TRInt")
 //@     step [vg] be32(r.D, iter(r.Pos)) == 4 ==> r.Pos == iter(r.Pos) + 8 + 80 && has(cs.Records, "VGInt") && isboxed(cs.Records["VGInt"], *VGCounters)
-//@         && vgAt(unbox(cs.Records["VGInt"], *VGCounters), r.D, iter(r.Pos) + 8) && othersKept(cs.Records, iter(cs.Records), "VGInt")
+//@         && unbox(cs.Records["VGInt"], *VGCounters) == vgU(r.D, iter(r.Pos) + 8) && othersKept(cs.Records, iter(cs.Records), "VGInt")
 //@     step [vlan] be32(r.D, iter(r.Pos)) == 5 ==> r.Pos == iter(r.Pos) + 8 + 28 && has(cs.Records, "Vlan") && isboxed(cs.Records["Vlan"], *VlanCounters)
-//@         && vlanAt(unbox(cs.Records["Vlan"], *VlanCounters), r.D, iter(r.Pos) + 8) && othersKept(cs.Records, iter(cs.Records), "Vlan")
+//@         && unbox(cs.Records["Vlan"], *VlanCounters) == vlanU(r.D, iter(r.Pos) + 8) && othersKept(cs.Records, iter(cs.Records), "Vlan")
 //@     step [proc] be32(r.D, iter(r.Pos)) == 1001 ==> r.Pos == iter(r.Pos) + 8 + 28 && has(cs.Records, "Proc") && isboxed(cs.Records["Proc"], *ProcessorCounters)
-//@         && procAt(unbox(cs.Records["Proc"], *ProcessorCounters), r.D, iter(r.Pos) + 8) && othersKept(cs.Records, iter(cs.Records), "Proc")
+//@         && unbox(cs.Records["Proc"], *ProcessorCounters) == processorU(r.D, iter(r.Pos) + 8) && othersKept(cs.Records, iter(cs.Records), "Proc")
 //@     step [unknown] be32(r.D, iter(r.Pos)) != 1 && be32(r.D, iter(r.Pos)) != 2 && be32(r.D, iter(r.Pos)) != 3 && be32(r.D, iter(r.Pos)) != 4 && be32(r.D, iter(r.Pos)) != 5 && be32(r.D, iter(r.Pos)) != 1001
 //@         ==> r.Pos == iter(r.Pos) + 8 + be32(r.D, iter(r.Pos) + 4) && cs.Records == iter(cs.Records)
 
@@ -201,12 +203,14 @@ package sflow
 //@   ensures old(r.Pos) + 88 <= len(r.D) ==> err == nil && r.Pos == old(r.Pos) + 88 && genAt(gic, r.D, old(r.Pos))
 //@   ensures old(r.Pos) + 88 > len(r.D) ==> err != nil
 //@   modifies gic, r.Pos
+//@ uninterp genericU(b []byte, p mathint) *GenericInterfaceCounters
 //@ func decodeGenericIntCounters
 //@   names r _ _ gic err
 //@   requires strm(r)
 //@   ensures strm(r) && r.D == old(r.D) && r.Pos >= old(r.Pos)
 //@   ensures old(r.Pos) + 88 <= len(r.D) ==> err == nil && result != nil && r.Pos == old(r.Pos) + 88 && genAt(result, r.D, old(r.Pos))
 //@   ensures old(r.Pos) + 88 > len(r.D) ==> err != nil && result == nil
+//@   ensures [trusted.def] err == nil ==> result == genericU(r.D, old(r.Pos))
 //@   modifies r.Pos
 
 // sFlow v5 counter record, 52 octets
@@ -222,12 +226,14 @@ package sflow
 //@   ensures old(r.Pos) + 52 <= len(r.D) ==> err == nil && r.Pos == old(r.Pos) + 52 && ethAt(eic, r.D, old(r.Pos))
 //@   ensures old(r.Pos) + 52 > len(r.D) ==> err != nil
 //@   modifies eic, r.Pos
+//@ uninterp ethernetU(b []byte, p mathint) *EthernetInterfaceCounters
 //@ func decodeEthIntCounters
 //@   names r _ _ eic err
 //@   requires strm(r)
 //@   ensures strm(r) && r.D == old(r.D) && r.Pos >= old(r.Pos)
 //@   ensures old(r.Pos) + 52 <= len(r.D) ==> err == nil && result != nil && r.Pos == old(r.Pos) + 52 && ethAt(result, r.D, old(r.Pos))
 //@   ensures old(r.Pos) + 52 > len(r.D) ==> err != nil && result == nil
+//@   ensures [trusted.def] err == nil ==> result == ethernetU(r.D, old(r.Pos))
 //@   modifies r.Pos
 
 // sFlow v5 counter record, 72 octets
@@ -244,12 +250,14 @@ package sflow
 //@   ensures old(r.Pos) + 72 <= len(r.D) ==> err == nil && r.Pos == old(r.Pos) + 72 && trAt(tr, r.D, old(r.Pos))
 //@   ensures old(r.Pos) + 72 > len(r.D) ==> err != nil
 //@   modifies tr, r.Pos
+//@ uninterp tokenRingU(b []byte, p mathint) *TokenRingCounters
 //@ func decodeTokenRingCounters
 //@   names r _ _ tr err
 //@   requires strm(r)
 //@   ensures strm(r) && r.D == old(r.D) && r.Pos >= old(r.Pos)
 //@   ensures old(r.Pos) + 72 <= len(r.D) ==> err == nil && result != nil && r.Pos == old(r.Pos) + 72 && trAt(result, r.D, old(r.Pos))
 //@   ensures old(r.Pos) + 72 > len(r.D) ==> err != nil && result == nil
+//@   ensures [trusted.def] err == nil ==> result == tokenRingU(r.D, old(r.Pos))
 //@   modifies r.Pos
 
 // sFlow v5 counter record, 80 octets
@@ -265,12 +273,14 @@ package sflow
 //@   ensures old(r.Pos) + 80 <= len(r.D) ==> err == nil && r.Pos == old(r.Pos) + 80 && vgAt(vg, r.D, old(r.Pos))
 //@   ensures old(r.Pos) + 80 > len(r.D) ==> err != nil
 //@   modifies vg, r.Pos
+//@ uninterp vgU(b []byte, p mathint) *VGCounters
 //@ func decodeVGCounters
 //@   names r _ _ vg err
 //@   requires strm(r)
 //@   ensures strm(r) && r.D == old(r.D) && r.Pos >= old(r.Pos)
 //@   ensures old(r.Pos) + 80 <= len(r.D) ==> err == nil && result != nil && r.Pos == old(r.Pos) + 80 && vgAt(result, r.D, old(r.Pos))
 //@   ensures old(r.Pos) + 80 > len(r.D) ==> err != nil && result == nil
+//@   ensures [trusted.def] err == nil ==> result == vgU(r.D, old(r.Pos))
 //@   modifies r.Pos
 
 // sFlow v5 counter record, 28 octets
@@ -283,12 +293,14 @@ package sflow
 //@   ensures old(r.Pos) + 28 <= len(r.D) ==> err == nil && r.Pos == old(r.Pos) + 28 && vlanAt(vc, r.D, old(r.Pos))
 //@   ensures old(r.Pos) + 28 > len(r.D) ==> err != nil
 //@   modifies vc, r.Pos
+//@ uninterp vlanU(b []byte, p mathint) *VlanCounters
 //@ func decodeVlanCounters
 //@   names r _ _ vc err
 //@   requires strm(r)
 //@   ensures strm(r) && r.D == old(r.D) && r.Pos >= old(r.Pos)
 //@   ensures old(r.Pos) + 28 <= len(r.D) ==> err == nil && result != nil && r.Pos == old(r.Pos) + 28 && vlanAt(result, r.D, old(r.Pos))
 //@   ensures old(r.Pos) + 28 > len(r.D) ==> err != nil && result == nil
+//@   ensures [trusted.def] err == nil ==> result == vlanU(r.D, old(r.Pos))
 //@   modifies r.Pos
 
 // sFlow v5 counter record, 28 octets
@@ -301,12 +313,14 @@ package sflow
 //@   ensures old(r.Pos) + 28 <= len(r.D) ==> err == nil && r.Pos == old(r.Pos) + 28 && procAt(pc, r.D, old(r.Pos))
 //@   ensures old(r.Pos) + 28 > len(r.D) ==> err != nil
 //@   modifies pc, r.Pos
+//@ uninterp processorU(b []byte, p mathint) *ProcessorCounters
 //@ func decodedProcessorCounters
 //@   names r _ _ pc err
 //@   requires strm(r)
 //@   ensures strm(r) && r.D == old(r.D) && r.Pos >= old(r.Pos)
 //@   ensures old(r.Pos) + 28 <= len(r.D) ==> err == nil && result != nil && r.Pos == old(r.Pos) + 28 && procAt(result, r.D, old(r.Pos))
 //@   ensures old(r.Pos) + 28 > len(r.D) ==> err != nil && result == nil
+//@   ensures [trusted.def] err == nil ==> result == processorU(r.D, old(r.Pos))
 //@   modifies r.Pos
 // ---- datagram ------------------------------------------------------------------------------------
 
